@@ -264,6 +264,19 @@ func (en *Engine) verifyUnit(u *UnitInfo) *UnitResult {
 			}
 		}
 		for i, c := range spec.clauses("ensures") {
+			if strings.HasPrefix(c.Name, "local:") {
+				// an exit obligation over local variables: checked on the paths where they are bound
+				nUnd := len(x.undecided)
+				npc := len(st.pc)
+				g := x.cxBool(st, c.Expr, x.entry, binds)
+				if len(x.undecided) > nUnd {
+					x.undecided = x.undecided[:nUnd]
+					st.pc = st.pc[:npc]
+					continue
+				}
+				x.oblige(st, "ensures", "ensures["+c.Name+"]", g, nil)
+				continue
+			}
 			g := x.cxBool(st, c.Expr, x.entry, binds)
 			lbl := clauseLabel(c, i)
 			x.oblige(st, "ensures", "ensures["+lbl+"]", g, nil)
